@@ -42,6 +42,7 @@ pub struct Profile {
     pub deposit: u64,
     pub withdraw: u64,
     pub stake: u64,
+    pub doscmint: u64,
     pub hostile: u64,
     /// per-mille chance that a pool request spells its pool key non-canonically
     pub odd_spelling_permille: u64,
@@ -63,6 +64,7 @@ impl Default for Profile {
             deposit: 8,
             withdraw: 6,
             stake: 4,
+            doscmint: 3,
             hostile: 10,
             odd_spelling_permille: 120,
             wrong_kind_permille: 80,
@@ -213,6 +215,9 @@ impl World {
         let mut fab = Fab::new(net, height);
         fab.fee_multiplier = fee_multiplier;
         fab.fee_pool = fee_pool;
+        // a low recorded DOSC speed lets small proofs raise it (and earn ERG)
+        fab.dosc_speed = *rng.pick(&[1u128, 3, 40, MICRO]);
+        fab.parent_dosc_speed = fab.dosc_speed;
         let at = addr_of(&always_true_cov());
         let mut ids = vec![];
         let coin_h = height.saturating_sub(1);
@@ -985,6 +990,67 @@ impl World {
         Some((tx, format!("stake {} amount_match={}", label, staked == v)))
     }
 
+    /// A valid ERG mint: a real MelPoW proof (small difficulty) over a coin created in an earlier
+    /// block, asking for at most the reference reward.
+    pub fn gen_doscmint(&mut self) -> Option<(Transaction, String)> {
+        use melpow::{HashFunction, Proof, SVec};
+        struct L;
+        impl HashFunction for L {
+            fn hash(&self, b: &[u8], k: &[u8]) -> SVec<u8> {
+                SVec::from_slice(blake3::keyed_hash(blake3::hash(k).as_bytes(), b).as_bytes())
+            }
+        }
+        struct T9;
+        impl HashFunction for T9 {
+            fn hash(&self, b: &[u8], k: &[u8]) -> SVec<u8> {
+                let mut h = blake3::keyed_hash(blake3::hash(k).as_bytes(), b);
+                for _ in 0..99 {
+                    h = blake3::hash(h.as_bytes());
+                }
+                SVec::from_slice(h.as_bytes())
+            }
+        }
+        if self.net == NetID::Mainnet {
+            return None;
+        }
+        let tip = self.tip.clone()?;
+        let tip_h = tip.header().height.0;
+        let height = self.height();
+        let cands: Vec<(CoinID, CoinDataHeight)> = self
+            .spendable()
+            .into_iter()
+            .filter(|(_, c)| c.coin_data.denom == Denom::Mel && c.height.0 < height && c.coin_data.value.0 <= MAX_COINVAL && (c.height.0 == tip_h || tip.history(c.height).is_some()))
+            .collect();
+        if cands.is_empty() {
+            return None;
+        }
+        let (id, cdh) = self.rng.pick(&cands).clone();
+        let hdr = if cdh.height.0 == tip_h { tip.header() } else { tip.history(cdh.height)? };
+        let puzzle = tmelcrypt::hash_keyed(hdr.hash(), &stdcode::serialize(&id).unwrap());
+        let tip910 = self.rng.chance(1, 3);
+        let d = 1 + self.rng.below(if tip910 { 4 } else { 7 }) as u32;
+        let proof = if tip910 { Proof::generate(&puzzle, d as usize, T9) } else { Proof::generate(&puzzle, d as usize, L) };
+        let age = height - cdh.height.0;
+        let work: u128 = (1u128 << d) * if tip910 { 100 } else { 1 };
+        let speed = work / age as u128;
+        let prev = tip.header().dosc_speed;
+        let real = crate::refmath::reward_real(speed, prev, d, tip910);
+        let nominal = crate::model::big_to_u128_sat(&crate::refmath::dosc_to_erg(height, &real)).min(MAX_COINVAL);
+        let erg = if self.rng.chance(1, 2) { nominal } else { nominal / 2 };
+        let covhash = {
+            let o = self.rng.usize(self.owners.len());
+            self.owners[o].addr_new
+        };
+        let mut payload = vec![];
+        if erg > 0 {
+            payload.push(CoinData { covhash, value: CoinValue(erg), denom: Denom::Erg, additional_data: Bytes::new() });
+        }
+        let data = stdcode::serialize(&(d, proof.to_bytes())).unwrap();
+        // the minted coin must be input 0
+        let tx = self.complete(TxKind::DoscMint, vec![(id, cdh)], payload, data, 0)?;
+        Some((tx, format!("doscmint d={} {} speed={}", d, if tip910 { "tip910" } else { "legacy" }, speed)))
+    }
+
     /// Degenerate but well-formed requests an adversary can submit: zero-valued pool requests,
     /// proofs and stake documents that do not decode or decode to nothing, liquidity tokens minted
     /// by a test-network faucet and redeemed.
@@ -1165,7 +1231,7 @@ impl World {
                 return Some(x);
             }
         }
-        let total = p.normal + p.newcustom + p.faucet + p.swap + p.deposit + p.withdraw + p.stake;
+        let total = p.normal + p.newcustom + p.faucet + p.swap + p.deposit + p.withdraw + p.stake + p.doscmint;
         let mut x = self.rng.below(total.max(1));
         let mut pick = |w: u64| {
             if x < w {
@@ -1187,6 +1253,8 @@ impl World {
             self.gen_deposit()
         } else if pick(p.withdraw) {
             self.gen_withdraw()
+        } else if pick(p.doscmint) {
+            self.gen_doscmint()
         } else {
             self.gen_stake()
         }
